@@ -227,6 +227,12 @@ func (s *orRuleSetLoader) makeTypeFromRuleSet(lex lexeme.LexEvent) {
 	CompileBasic(&typ, false)
 	s.checkCompatibilityOfConstraints(declaredType)
 
+	// A reference to a user type with another rule next to it: the list of the
+	// node must know, the name of the unnamed type doesn't tell.
+	if tl, ok := s.typeRoot.Constraint(constraint.TypesListConstraintType).(*constraint.TypesList); ok && tl.HasUserTypes() {
+		c.MarkUserType()
+	}
+
 	// The place of the rule-set itself, not of the node: the types of one "or"
 	// rule are checked in the order in which they are written.
 	name := s.rootSchema.AddUnnamedType(&typ, lex.File(), lex.Begin())
